@@ -1000,6 +1000,35 @@ def coq_order_cases(specs, results):
     return cases, info
 
 
+def flatten_nested(x):
+    if isinstance(x, list):
+        out = []
+        for y in x:
+            out += flatten_nested(y)
+        return out
+    return [x]
+
+
+def coq_value_cases(specs, results):
+    """(lattice, A, mps2lat_values(A) flattened, [mps2lat_values(A[mps_idx_fix_u(u)], u=u) flattened]) per lattice whose
+    order lists every lattice index (regular / MultiSpecies)."""
+    cases, info = [], []
+    for k, (spec, res) in enumerate(zip(specs, results)):
+        if res is None or 'order' not in res or spec['kind'] not in ('regular', 'multi'):
+            continue
+        v, vu = res.get('values'), res.get('values_u')
+        if v is None or vu is None or isinstance(v, dict) or isinstance(vu, dict):
+            continue          # a raise is reported by the oracle stream
+        N = len(res['order'])
+        flat = flatten_nested(v)
+        flats = [flatten_nested(x) for x in vu]
+        if not flat or not flats or any(not f for f in flats):
+            continue
+        cases.append('(%s, %s, %s, %s)' % (lat_lit(spec, res), coq_lit([1000 + i for i in range(N)]), coq_lit(flat), coq_lit(flats)))
+        info.append(k)
+    return cases, info
+
+
 # ----------------------------------------------------------------------------------------------------
 
 def main(ctx):
@@ -1077,14 +1106,27 @@ def main(ctx):
         ctx.fail('correspondence', 'Model/Lattice.v get_order and Lattice.ordering disagree on %s' % (oinfo[b],), oinfo[b])
     for i in oinfo:
         ctx.count('model-order', i, nontrivial=True)
+    vcases, vinfo = coq_value_cases(specs, results)
+    bad, err = common.coq_failing_indices('values_c19', ['Base.Prelude', 'Model.Lattice', 'Model.LatticeVals'], 'check_values',
+                                          vcases, shard=100)
+    if err:
+        ctx.fail('correspondence', 'model evaluation (mps2lat_values) failed: ' + err[-600:], None)
+    for b in bad[:5]:
+        spec = specs[vinfo[b]]
+        ctx.fail('correspondence', 'Model/LatticeVals.v and Lattice.mps2lat_values disagree on %s%s %s bc_MPS=%s order=%s'
+                 % (spec['cls'], spec['Ls'], spec['kind'], spec['bc_MPS'], spec['order']),
+                 {'spec': {k: v for k, v in spec.items() if k != 'queries'}})
+    for k in vinfo:
+        ctx.count('model-values', [k, specs[k]['cls'], specs[k]['Ls'], str(specs[k]['order'])], nontrivial=len(results[k]['order']) > 1)
     tim['coq'] = round(time.time() - t0, 1)
     ctx.cov['phase_end_seconds'] = tim
-    ctx.cov['traces_validated_against_impl'] = len(coq_cases) + len(ocases)
+    ctx.cov['traces_validated_against_impl'] = len(coq_cases) + len(ocases) + len(vcases)
     ctx.cov['input_distribution'] = hist
     ctx.assumptions += [
         'C19 model: Lattice.order is an input of the model (its construction by get_order is modelled and proved separately; '
         'get_order_grouped, folded orders, MultiSpecies/Irregular/Helical order construction are oracle-checked only)',
-        'C19 not modelled in Coq: HelicalLattice (oracle only), mps2lat_values(_masked), positions/distances (float, oracle only)',
+        'C19 not modelled in Coq: HelicalLattice (oracle only), mps2lat_values_masked and multi-axis mps2lat_values (oracle only; the 1D '
+        'mps2lat_values(A) and mps2lat_values(A, u=u) are modelled in Model/LatticeVals.v), positions/distances (float, oracle only)',
     ]
     return ctx.finish(RULE, 'theorems of coq/Props/C19.v (all dimensions, sizes, orders) about Model/Lattice.v; the model is run against '
                       'lattice.py by vm_compute on every generated lattice; all classes are compared with a brute-force enumeration '
